@@ -764,3 +764,165 @@ pub proof fn theorem_C06_same_as_any_fresh_server(es1: Seq<Ev>, es2: Seq<Ev>, n:
     assert(bucket(r1.defs, n).filter(in_file(g)) == bucket(r2.defs, n).filter(in_file(g)));
     assert(bucket(r1.byfix, n).filter(pair_in_file(g)) == bucket(r2.byfix, n).filter(pair_in_file(g)));
 }
+
+// ---- corollaries --------------------------------------------------------------------------------------------------------------
+//@tags C06
+/// NOTHING SUPERSEDED SURVIVES: every definition the index holds after a history is one the visitors record for the
+/// latest valid content of ITS file (so a fixture removed or renamed there, or an old position, is gone)
+pub proof fn lemma_C06_every_definition_is_of_latest_valid_text(es: Seq<Ev>, n: Seq<char>, i: int) -> (j: int)
+    requires visitors_file_local(), run(idx_empty(), es).defs.contains_key(n), 0 <= i < run(idx_empty(), es).defs[n].len()
+    ensures ({
+        let d = run(idx_empty(), es).defs[n][i];
+        &&& last_valid(es, d.file) is Some
+        &&& 0 <= j < vd(d.file, last_valid(es, d.file)->0).len()
+        &&& vd(d.file, last_valid(es, d.file)->0)[j] == d
+    })
+{
+    let r = run(idx_empty(), es);
+    let d = r.defs[n][i];
+    theorem_C06_index_is_latest_valid_text(es, d.file, n);
+    let k = lemma_filter_has(bucket(r.defs, n), in_file(d.file), i);
+    assert(pdefs(r, d.file, n)[k] == d);
+    let t = last_valid(es, d.file)->0;
+    lemma_filter_elem(vd(d.file, t), named(n), k)
+}
+//@tags C06
+/// ... and every usage, in the per-file list and in the reverse index
+pub proof fn lemma_C06_every_usage_is_of_latest_valid_text(es: Seq<Ev>, g: PV, i: int)
+    requires visitors_file_local(), run(idx_empty(), es).uses.contains_key(g), 0 <= i < run(idx_empty(), es).uses[g].len()
+    ensures last_valid(es, g) is Some, run(idx_empty(), es).uses[g] == vu(g, last_valid(es, g)->0),
+{
+    theorem_C06_index_is_latest_valid_text(es, g, Seq::<char>::empty());
+}
+pub proof fn lemma_C06_every_reverse_entry_is_of_latest_valid_text(es: Seq<Ev>, n: Seq<char>, i: int) -> (j: int)
+    requires visitors_file_local(), run(idx_empty(), es).byfix.contains_key(n), 0 <= i < run(idx_empty(), es).byfix[n].len()
+    ensures ({
+        let e = run(idx_empty(), es).byfix[n][i];
+        &&& last_valid(es, e.0) is Some
+        &&& 0 <= j < vu(e.0, last_valid(es, e.0)->0).len()
+        &&& vu(e.0, last_valid(es, e.0)->0)[j] == e.1
+    })
+{
+    let r = run(idx_empty(), es);
+    let e = r.byfix[n][i];
+    theorem_C06_index_is_latest_valid_text(es, e.0, n);
+    let k = lemma_filter_has(bucket(r.byfix, n), pair_in_file(e.0), i);
+    assert(pbyfix(r, e.0, n)[k] == e);
+    let t = last_valid(es, e.0)->0;
+    let us = vu(e.0, t).filter(use_named(n));
+    assert(pairs_of(us)[k] == (us[k].file, us[k]));
+    lemma_filter_elem(vu(e.0, t), use_named(n), k)
+}
+//@tags C06 C10
+/// NOTHING IS DUPLICATED BY RE-ANALYSIS: the same notification twice in a row leaves exactly the state of sending it once
+pub proof fn lemma_C06_repeated_event_is_idempotent(s: IdxV, f: PV, t: Seq<char>)
+    requires core(s), ev_local(f, t)
+    ensures step(step(s, f, t), f, t) == step(s, f, t)
+{
+    if parse_ok(t) {
+        let s1 = step(s, f, t);
+        lemma_step_preserves_core(s, f, t);
+        lemma_step_self(s, f, t);
+        lemma_step_sync(s1, s, f, t);
+    }
+}
+//@tags C06
+/// WHILE A DOCUMENT IS INVALID its last valid version stays in effect: an unparsable event changes neither the index nor
+/// any file's latest valid content
+pub proof fn lemma_C06_invalid_text_keeps_last_valid(s0: IdxV, es: Seq<Ev>, f: PV, t: Seq<char>, g: PV)
+    requires !parse_ok(t)
+    ensures run(s0, es.push((f, t))) == run(s0, es), last_valid(es.push((f, t)), g) == last_valid(es, g), fresh(es.push((f, t))) == fresh(es),
+{
+    let z = es.push((f, t));
+    assert(z.drop_last() =~= es);
+    assert(z.last() == (f, t));
+}
+//@tags C10
+/// C10, last clause -- "one further change notification always restores the exact single-analysis state".
+/// (a) EXACT STATE: two states with W1 and no empty bucket that agree outside f -- e.g. a clean state and the same state
+///     POLLUTED with arbitrary extra / stale / duplicated entries of f (as long as file_definitions lists their names:
+///     W1) -- are identical after analyze_file(f, t).
+pub proof fn lemma_C10_one_more_change_restores(polluted: IdxV, clean: IdxV, f: PV, t: Seq<char>)
+    requires core(polluted), core(clean), same_except(polluted, clean, f), ev_local(f, t), parse_ok(t)
+    ensures step(polluted, f, t) == step(clean, f, t)
+{
+    lemma_step_sync(polluted, clean, f, t);
+}
+//@tags C10
+/// (b) THE FILE'S ENTRIES, from W1 alone: whatever a state with W1 holds for f, after analyze_file(f, t) its entries are
+///     exactly those of t (all four projections), and every other file's are untouched
+pub proof fn lemma_C10_one_more_change_file_entries(polluted: IdxV, f: PV, t: Seq<char>, g: PV, n: Seq<char>)
+    requires w1(polluted.defs, polluted.fdefs), ev_local(f, t), parse_ok(t)
+    ensures ({
+        let r = step(polluted, f, t);
+        &&& pdefs(r, f, n) == tdefs(f, Some(t), n) && pnames(r, f) == tnames(f, Some(t)) && puses(r, f) == tuses(f, Some(t)) && pbyfix(r, f, n) == tbyfix(f, Some(t), n)
+        &&& g != f ==> pdefs(r, g, n) == pdefs(polluted, g, n) && pnames(r, g) == pnames(polluted, g) && puses(r, g) == puses(polluted, g) && pbyfix(r, g, n) == pbyfix(polluted, g, n)
+        &&& w1(r.defs, r.fdefs)
+    })
+{
+    lemma_step_proj(polluted, f, t, f, n);
+    lemma_step_proj(polluted, f, t, g, n);
+    lemma_step_preserves_w1(polluted, f, t);
+}
+//@tags C10
+/// (c) THE POLLUTION analyze_file_fresh causes (workspace scan re-analysing a file that is already indexed: the old
+///     definitions of f stay next to the new ones) keeps W1 and the no-empty-bucket invariant and touches nothing outside f;
+///     hence ONE further analyze_file(f, t) gives exactly the state a single analyze_file(f, t) gives without the scan
+pub proof fn lemma_C10_scan_pollution_then_change_restores(s: IdxV, f: PV, t_scan: Seq<char>, t: Seq<char>, n: Seq<char>)
+    requires core(s), ev_local(f, t_scan), ev_local(f, t), parse_ok(t)
+    ensures
+        step(step_fresh(s, f, t_scan), f, t) == step(s, f, t),
+        parse_ok(t_scan) ==> pdefs(step_fresh(s, f, t_scan), f, n) == pdefs(s, f, n) + tdefs(f, Some(t_scan), n),
+{
+    let p = step_fresh(s, f, t_scan);
+    lemma_fresh_preserves_core(s, f, t_scan);
+    lemma_fresh_self(s, f, t_scan);
+    lemma_step_sync(p, s, f, t);
+    if parse_ok(t_scan) {
+        lemma_fresh_nf(s, f, t_scan);
+        let b = vd(f, t_scan).filter(named(n));
+        assert(bucket(p.defs, n) == bucket(s.defs, n) + b);
+        lemma_filter_add(bucket(s.defs, n), b, in_file(f));
+        lemma_sub_all_in_file(vd(f, t_scan), named(n), f);
+        lemma_filter_all(b, in_file(f));
+    }
+}
+//@tags C06 C10
+/// a "server started fresh" that indexes with the SCAN entry point: on a file that is not indexed yet analyze_file_fresh
+/// and analyze_file coincide, so a scan that visits every file once is a history
+pub proof fn lemma_fresh_is_step_when_unindexed(s: IdxV, f: PV, t: Seq<char>)
+    requires !s.fdefs.contains_key(f)
+    ensures step_fresh(s, f, t) == step(s, f, t)
+{
+    assert(clean_defs_names(s.defs, f, sbucket(s.fdefs, f)) =~= s.defs);
+    assert(s.fdefs.remove(f) =~= s.fdefs);
+}
+pub proof fn lemma_scan_is_history(es: Seq<Ev>)
+    requires visitors_file_local(), files_distinct(es)
+    ensures run_fresh(idx_empty(), es) == run(idx_empty(), es)
+    decreases es.len()
+{
+    if es.len() > 0 {
+        let es0 = es.drop_last();
+        let (f, t) = es.last();
+        assert(files_distinct(es0));
+        lemma_scan_is_history(es0);
+        let r = run(idx_empty(), es0);
+        lemma_no_event_no_valid(es0, f);
+        theorem_C06_index_is_latest_valid_text(es0, f, Seq::<char>::empty());
+        lemma_empty_inv();
+        lemma_run_preserves_core(idx_empty(), es0);
+        assert(sbucket(r.fdefs, f) == Set::<Seq<char>>::empty());
+        lemma_fresh_is_step_when_unindexed(r, f, t);
+    }
+}
+pub proof fn lemma_no_event_no_valid(es: Seq<Ev>, f: PV)
+    requires forall|i: int| 0 <= i < es.len() ==> (#[trigger] es[i]).0 != f
+    ensures last_valid(es, f) is None
+    decreases es.len()
+{
+    if es.len() > 0 {
+        assert(es[es.len() - 1].0 != f);
+        lemma_no_event_no_valid(es.drop_last(), f);
+    }
+}
